@@ -13,6 +13,7 @@
    A writer appearing anywhere else makes gen_matches_model fail. *)
 From Coq Require Import ZArith List String.
 From FxV Require Import gen.Gen_Attest model.M_Attest.
+From FxV Require gen.Gen_EndBlock.
 Import ListNotations.
 Open Scope Z_scope.
 Open Scope string_scope.
@@ -95,3 +96,11 @@ Theorem gen_matches_model :
   (gen_writer_sites = expected_writer_sites \/ gen_writer_sites = expected_writer_sites_repaired) /\
   gen_raw_key_users = expected_raw_key_users.
 Proof. repeat split; first [reflexivity | left; reflexivity | right; reflexivity]. Qed.
+
+(* the end blocker as harness/gen_c07 reads it from abci.go: what the three loops hand to SlashOracle, the calls of
+   keeper.slashing (incl. the final SetLastTotalPower) and the phases of EndBlocker are what M_Attest.end_block assumes *)
+Theorem gen_endblock_matches_model :
+  Gen_EndBlock.gen_slash_args = slash_args0 /\
+  Gen_EndBlock.gen_slashing_calls = ["GetAllOracles"; "oracleSetSlashing"; "batchSlashing"; "bridgeCallSlashing"; "SetLastTotalPower"] /\
+  Gen_EndBlock.gen_endblock_phases = ["GetSignedWindow"; "slashing"; "createOracleSetRequest"; "pruneOracleSet"].
+Proof. repeat split; reflexivity. Qed.
